@@ -12,7 +12,8 @@ From Helm Require Props.Decisions. (* data conditions of the release operations 
 From Coq Require Import List String Bool Arith.
 From Helm Require Import Common.Assoc Engine.Types Engine.Eff Engine.Ops Engine.Cluster Engine.Seq
   Engine.SeqProofs Engine.HooksProofsGate Engine.ContainLedger Engine.ContainProofs Engine.ContainDeployed
-  Engine.Contain Engine.ContainRefuted Engine.ContainStore Engine.HooksProofsTrace Engine.ContainReported Engine.ContainCleanup Engine.ContainAtomic Engine.ContainAtomicUp Engine.ContainAtomicReplace Engine.ContainAtomicFull.
+  Engine.Contain Engine.ContainRefuted Engine.ContainStore Engine.HooksProofsTrace Engine.ContainReported Engine.ContainCleanup Engine.ContainAtomic Engine.ContainAtomicUp Engine.ContainAtomicReplace Engine.ContainAtomicFull
+  Engine.ContainHistory Engine.ContainMulti Engine.ContainAtomicHooks Engine.ContainAtomicHooksEx.
 Import ListNotations.
 Local Open Scope string_scope.
 
@@ -327,3 +328,243 @@ Example C03_cleanup_example :
   map fst (objs (ks (fst (fst cu_run)))) = ["ConfigMap/a"].
 Proof. exact cleanup_example. Qed.
 Print Assumptions C03_cleanup_example.
+
+(* ================= round 4: histories with more than one fault ================= *)
+
+(* C03_history_contained — the two core clauses at EVERY position of EVERY history: whatever
+   happened before the step (earlier operations that failed, were hit by storage-write faults or
+   crashed, out-of-band edits — any fault plan on every earlier step) and whatever comes after,
+   a non-atomic install / upgrade / rollback that returns an error (no storage fault or crash of
+   its own; any one-shot cluster fault) leaves the revision it created failed — never pending,
+   never deployed — and, for install and upgrade, the revision that was deployed when it started
+   is still stored, unchanged, deployed.  [world_after rn ns pre w0] is the world the prefix
+   leaves behind; the observation at position |pre| of [run_history] is the step's. *)
+Theorem C03_history_contained :
+  forall rn ns pre o cf post w0 w' c t,
+    NoDup (revs (w_led w0)) ->
+    (match o with OpUninstall _ => False | _ => True end) ->
+    f_atomic (op_flags o) = false -> f_dry_run (op_flags o) = false ->
+    nth_error (run_history rn ns (pre ++ HOp (mkOp o nofault cf) :: post) w0) (List.length pre)
+      = Some (w', OErr c, t) ->
+    (forall y, In y (w_led w') -> ~ In (rev y) (revs (w_led (world_after rn ns pre w0))) -> st y = SFailed)
+    /\
+    ((match o with OpInstall _ _ _ _ _ | OpUpgrade _ _ _ _ _ => True | _ => False end) ->
+     forall d, max_rev_of (filter (fun r => status_eqb (st r) SDeployed) (w_led (world_after rn ns pre w0))) = Some d ->
+               In d (w_led w') /\ st d = SDeployed).
+Proof. exact history_contained. Qed.
+Print Assumptions C03_history_contained.
+
+(* ... and with the step under consideration run under an ARBITRARY cluster handler *)
+Theorem C03_history_contained_any_cluster :
+  forall (K : Type) (kh : forall e : eff, K -> K * resp e * list kev) (dresp : forall e, resp e)
+         rn ns pre o w0 (k0 : K) l' k' c t,
+    NoDup (revs (w_led w0)) ->
+    (match o with OpUninstall _ => False | _ => True end) ->
+    f_atomic (op_flags o) = false -> f_dry_run (op_flags o) = false ->
+    run_op K kh dresp rn ns o nofault (w_led (world_after rn ns pre w0)) k0 = (l', k', OErr c, t) ->
+    (forall y, In y l' -> ~ In (rev y) (revs (w_led (world_after rn ns pre w0))) -> st y = SFailed)
+    /\
+    ((match o with OpInstall _ _ _ _ _ | OpUpgrade _ _ _ _ _ => True | _ => False end) ->
+     forall d, max_rev_of (filter (fun r => status_eqb (st r) SDeployed) (w_led (world_after rn ns pre w0))) = Some d ->
+               In d l' /\ st d = SDeployed).
+Proof. exact history_contained_any_cluster. Qed.
+Print Assumptions C03_history_contained_any_cluster.
+
+(* the world a history leaves behind is the world of its last observation *)
+Theorem C03_world_after_is_last :
+  forall rn ns pre c post w,
+    nth_error (run_history rn ns (pre ++ HOp c :: post) w) (List.length pre)
+    = Some (run_store_op rn ns c (world_after rn ns pre w)).
+Proof. exact history_nth. Qed.
+Print Assumptions C03_world_after_is_last.
+
+(* non-vacuity, with TWO failed operations in a row: install {a,b}; upgrade to {a',c} with
+   CREATE c rejected; upgrade to {a''} whose wait fails: 1:deployed 2:failed 3:failed *)
+Example C03_history_contained_example :
+  NoDup (revs (w_led (mkW [] []))) /\
+  f_atomic (op_flags hc_up2) = false /\ f_dry_run (op_flags hc_up2) = false /\
+  f_atomic (op_flags hc_up4) = false /\ f_dry_run (op_flags hc_up4) = false /\
+  map obs_line (run_history "rel" "default" hc_history (mkW [] []))
+  = [ (OOk, [(1, SDeployed)]);
+      (OErr EOtherErr, [(1, SDeployed); (2, SFailed)]);
+      (OErr EOtherErr, [(1, SDeployed); (2, SFailed); (3, SFailed)]) ] /\
+  (exists d, max_rev_of (filter (fun r => status_eqb (st r) SDeployed)
+                                (w_led (world_after "rel" "default" [hc_install; HOp (mkOp hc_up2 nofault hc_cf2)] (mkW [] []))))
+             = Some d /\ rev d = 1).
+Proof. exact history_contained_example. Qed.
+Print Assumptions C03_history_contained_example.
+
+(* the atomic clause on a ledger WITHOUT a deployed revision: install {a=v1}; upgrade to {a=v2};
+   rollback with PATCH a rejected (1:superseded 2:superseded 3:failed); upgrade --atomic whose wait
+   fails ends with 5:deployed carrying the manifest of revision 2 — the most recent revision that
+   had been deployed — and a = v2 in the cluster ([trail]: the statuses after every step) *)
+Example C03_atomic_upgrade_without_deployed_example :
+  trail nodep_history =
+    [ [(1, SDeployed)];
+      [(1, SSuperseded); (2, SDeployed)];
+      [(1, SSuperseded); (2, SSuperseded); (3, SFailed)];
+      [(1, SSuperseded); (2, SSuperseded); (3, SFailed); (4, SFailed); (5, SDeployed)] ] /\
+  exists w, final nodep_history = Some (w, OErr EOtherErr) /\
+            manifest_of 5 w = Some [cmr "a" "v2"] /\ data_of "ConfigMap/a" w = Some "v2".
+Proof. exact atomic_upgrade_without_deployed. Qed.
+Print Assumptions C03_atomic_upgrade_without_deployed_example.
+
+(* Known finding K11 — "the highest revision recorded superseded or deployed" is not always "the
+   most recent revision that had been deployed": install {a=v1}; upgrade to {a=v2} whose wait fails
+   (2:failed); rollback to 1 with PATCH a rejected marks the CURRENT revision 2 superseded;
+   upgrade --atomic whose wait fails restores revision 2, which was never deployed at any point of
+   the history ([ever_deployed]), instead of revision 1 *)
+Theorem C03_atomic_restores_never_deployed_refuted :
+  exists h w,
+    final h = Some (w, OErr EOtherErr) /\
+    trail h =
+      [ [(1, SDeployed)];
+        [(1, SDeployed); (2, SFailed)];
+        [(1, SDeployed); (2, SSuperseded); (3, SFailed)];
+        [(1, SSuperseded); (2, SSuperseded); (3, SFailed); (4, SFailed); (5, SDeployed)] ] /\
+    ever_deployed h 1 = true /\ ever_deployed h 2 = false /\
+    manifest_of 1 w = Some [cmr "a" "v1"] /\
+    manifest_of 5 w = Some [cmr "a" "v2"] /\ data_of "ConfigMap/a" w = Some "v2".
+Proof. exact atomic_restores_never_deployed_refuted. Qed.
+Print Assumptions C03_atomic_restores_never_deployed_refuted.
+
+(* ================= round 4: the open clauses of the atomic upgrade ================= *)
+
+(* C03_atomic_upgrade_hooks — C03_atomic_upgrade with hooks ENABLED, with the second disjunct of
+   the K6 exclusion, and with a history limit.  Hypotheses beyond those of C03_atomic_upgrade:
+   - K9 excluded: hooks are disabled, or g (the revision rolled back to) has no pre-/post-rollback
+     hooks — K9's witness C03_atomic_recovery_hook_refuted shows what a recovery hook can do;
+   - the hooks of the failed target that run on pre-/post-upgrade carry the before-hook-creation
+     policy (the default when a hook names none) and are not CRDs, so that no creation is refused
+     with "already exists", and no pre-upgrade hook object sits on a key of the two manifests;
+   - exactly one fault: no hook fault, and the wait | one rejected request that is not a DELETE;
+   - K6 excluded, either way: the failed target omits no resource of g, OR the only fault is the
+     wait (so the update with its deletion phase has gone through when the upgrade fails), g is
+     the deployed revision, and no omitted resource of g is protected by a live keep annotation;
+   - a history limit is admitted when g is the deployed revision (pruning skips it).
+   Conclusion as in C03_atomic_upgrade. *)
+Theorem C03_atomic_upgrade_hooks :
+  forall rn ns fl cid vid mani hks cf w w' c t last g,
+    f_atomic fl = true -> f_dry_run fl = false ->
+    (f_max_history fl = 0 \/ st g = SDeployed) ->
+    NoDup (revs (w_led w)) -> (forall x, In x (w_led w) -> rev x <> 0) ->
+    max_rev_of (w_led w) = Some last ->
+    max_rev_of (filter (fun r => status_eqb (st r) SSuperseded || status_eqb (st r) SDeployed) (w_led w)) = Some g ->
+    NoDup (map rkey mani) -> NoDup (map rkey (manifest g)) ->
+    (forall r, In r (manifest g) -> NoDup (akeys (r_fields r))) ->
+    (f_no_hooks fl = true \/ (hooks_for PreRollback (hooks g) = [] /\ hooks_for PostRollback (hooks g) = [])) ->
+    (f_no_hooks fl = true \/
+     ((forall h, In h (hooks_for PreUpgrade hks ++ hooks_for PostUpgrade hks) ->
+                 has_policy h BeforeHookCreation = true /\ String.eqb (h_kind h) "CustomResourceDefinition" = false) /\
+      (forall h, In h (hooks_for PreUpgrade hks) ->
+                 in_keys (rkey (h_res h)) mani = false /\ in_keys (rkey (h_res h)) (manifest g) = false))) ->
+    cf_h cf = None ->
+    ((cf_k cf = None /\ cf_wait cf = true) \/ (cf_wait cf = false /\ forall key, cf_k cf <> Some (VDelete, key))) ->
+    ((forall r, In r (manifest g) -> in_keys (rkey r) mani = true) \/
+     (cf_k cf = None /\ cf_wait cf = true /\ st g = SDeployed /\
+      (forall r, In r mani -> NoDup (akeys (r_fields r))) /\
+      (forall r live, In r (manifest g) -> in_keys (rkey r) mani = false ->
+                      aget (rkey r) (w_objs w) = Some live -> live_keep live = false))) ->
+    run_store_op rn ns (mkOp (OpUpgrade fl cid vid mani hks) ContainLedger.nofault cf) w = (w', OErr c, t) ->
+    (exists y, In y (w_led w') /\ ~ In (rev y) (revs (w_led w))) ->
+    exists y, In y (w_led w') /\ rev y = S (S (rev last)) /\ st y = SDeployed /\
+      manifest y = manifest g /\ hooks y = hooks g /\ chart_id y = chart_id g /\ config_id y = config_id g /\
+      (forall r, In r (manifest g) ->
+         exists live', aget (rkey r) (w_objs w') = Some live' /\
+                       fields_sub (r_fields (stamp rn ns r)) live' = true) /\
+      (forall o, In o mani -> in_keys (rkey o) (manifest g) = false ->
+         aget (rkey o) (w_objs w') = None \/
+         exists live, aget (rkey o) (w_objs w') = Some live /\ live_keep live = true).
+Proof. exact atomic_upgrade_hooks. Qed.
+Print Assumptions C03_atomic_upgrade_hooks.
+
+(* ... and when nothing but a hook watch is planned to fail (or nothing at all: the upgrade fails
+   for a reason that lies in the chart, e.g. a hook resource that already exists): ANY hooks of the
+   failed target; K9 and K6 excluded as above (first disjunct) *)
+Theorem C03_atomic_upgrade_hook_fault :
+  forall rn ns fl cid vid mani hks cf w w' c t last g,
+    f_atomic fl = true -> f_dry_run fl = false ->
+    (f_max_history fl = 0 \/ st g = SDeployed) ->
+    NoDup (revs (w_led w)) -> (forall x, In x (w_led w) -> rev x <> 0) ->
+    max_rev_of (w_led w) = Some last ->
+    max_rev_of (filter (fun r => status_eqb (st r) SSuperseded || status_eqb (st r) SDeployed) (w_led w)) = Some g ->
+    NoDup (map rkey mani) -> NoDup (map rkey (manifest g)) ->
+    (forall r, In r (manifest g) -> NoDup (akeys (r_fields r))) ->
+    (f_no_hooks fl = true \/ (hooks_for PreRollback (hooks g) = [] /\ hooks_for PostRollback (hooks g) = [])) ->
+    cf_k cf = None -> cf_wait cf = false ->
+    (forall r, In r (manifest g) -> in_keys (rkey r) mani = true) ->
+    run_store_op rn ns (mkOp (OpUpgrade fl cid vid mani hks) ContainLedger.nofault cf) w = (w', OErr c, t) ->
+    (exists y, In y (w_led w') /\ ~ In (rev y) (revs (w_led w))) ->
+    exists y, In y (w_led w') /\ rev y = S (S (rev last)) /\ st y = SDeployed /\
+      manifest y = manifest g /\ hooks y = hooks g /\ chart_id y = chart_id g /\ config_id y = config_id g /\
+      (forall r, In r (manifest g) ->
+         exists live', aget (rkey r) (w_objs w') = Some live' /\
+                       fields_sub (r_fields (stamp rn ns r)) live' = true) /\
+      (forall o, In o mani -> in_keys (rkey o) (manifest g) = false ->
+         aget (rkey o) (w_objs w') = None \/
+         exists live, aget (rkey o) (w_objs w') = Some live /\ live_keep live = true).
+Proof. exact atomic_upgrade_hook_fault. Qed.
+Print Assumptions C03_atomic_upgrade_hook_fault.
+
+(* hooks enabled: install {a,b}; upgrade --atomic to {a',b',c} with the hook hp on pre- and
+   post-upgrade (default policy); PATCH b rejected: restored, hp is what the hook run left *)
+Example C03_atomic_upgrade_hooks_example :
+  f_atomic fl_atomic = true /\ f_dry_run fl_atomic = false /\ f_no_hooks fl_atomic = false /\ f_max_history fl_atomic = 0 /\
+  NoDup (revs (w_led hx_w1)) /\ (forall x, In x (w_led hx_w1) -> rev x <> 0) /\
+  max_rev_of (w_led hx_w1) = Some hx_g /\ max_rev_of (filter good_filter (w_led hx_w1)) = Some hx_g /\
+  NoDup (map rkey hx_mani) /\ NoDup (map rkey (manifest hx_g)) /\
+  hooks_for PreRollback (hooks hx_g) = [] /\ hooks_for PostRollback (hooks hx_g) = [] /\
+  hooks_for PreUpgrade [hx_hp] = [hx_hp] /\ hooks_for PostUpgrade [hx_hp] = [hx_hp] /\
+  has_policy hx_hp BeforeHookCreation = true /\ String.eqb (h_kind hx_hp) "CustomResourceDefinition" = false /\
+  in_keys (rkey (h_res hx_hp)) hx_mani = false /\ in_keys (rkey (h_res hx_hp)) (manifest hx_g) = false /\
+  cf_h hx_cf = None /\ cf_wait hx_cf = false /\ (forall key, cf_k hx_cf <> Some (VDelete, key)) /\
+  (forall r, In r (manifest hx_g) -> in_keys (rkey r) hx_mani = true) /\
+  exists w' t,
+    run_store_op "rel" "default" (mkOp (OpUpgrade fl_atomic 2 2 hx_mani [hx_hp]) ContainLedger.nofault hx_cf) hx_w1 = (w', OErr EOtherErr, t) /\
+    statuses (w_led w') = [(1, SSuperseded); (2, SFailed); (3, SDeployed)] /\
+    data_view w' = [("ConfigMap/a", Some "v1"); ("ConfigMap/b", Some "v1"); ("ConfigMap/hp", None)].
+Proof. exact atomic_upgrade_hooks_example. Qed.
+Print Assumptions C03_atomic_upgrade_hooks_example.
+
+(* after the deletion phase: install {a,b}; upgrade --atomic to {a'} (drops b) whose WAIT fails:
+   the update has deleted b, the rollback creates it again (K6's witness rejects PATCH a instead) *)
+Example C03_atomic_upgrade_after_deletion_example :
+  max_rev_of (w_led ad_w1) = Some ad_g /\ max_rev_of (filter good_filter (w_led ad_w1)) = Some ad_g /\
+  st ad_g = SDeployed /\ in_keys "ConfigMap/b" ad_mani = false /\
+  cf_k ad_cf = None /\ cf_h ad_cf = None /\ cf_wait ad_cf = true /\
+  (forall r live, In r (manifest ad_g) -> in_keys (rkey r) ad_mani = false ->
+                  aget (rkey r) (w_objs ad_w1) = Some live -> live_keep live = false) /\
+  exists w' t,
+    run_store_op "rel" "default" (mkOp (OpUpgrade fl_atomic 2 2 ad_mani []) ContainLedger.nofault ad_cf) ad_w1 = (w', OErr EOtherErr, t) /\
+    statuses (w_led w') = [(1, SSuperseded); (2, SFailed); (3, SDeployed)] /\
+    data_view w' = [("ConfigMap/a", Some "v1"); ("ConfigMap/b", Some "v1")].
+Proof. exact atomic_upgrade_after_deletion_example. Qed.
+Print Assumptions C03_atomic_upgrade_after_deletion_example.
+
+(* with a history limit: 1:superseded 2:superseded 3:deployed; upgrade --atomic --history-max 2
+   whose wait fails prunes 1 and 2, keeps the deployed revision 3 and restores it as revision 5 *)
+Example C03_atomic_upgrade_history_limit_example :
+  f_atomic hl_fl = true /\ f_max_history hl_fl = 2 /\
+  statuses (w_led hl_w3) = [(1, SSuperseded); (2, SSuperseded); (3, SDeployed)] /\
+  max_rev_of (filter good_filter (w_led hl_w3)) = Some hl_g /\ st hl_g = SDeployed /\
+  exists w' t,
+    run_store_op "rel" "default" (mkOp (OpUpgrade hl_fl 4 4 [cmr "a" "v4"] []) ContainLedger.nofault (mkCF None None true)) hl_w3
+      = (w', OErr EOtherErr, t) /\
+    statuses (w_led w') = [(3, SSuperseded); (4, SFailed); (5, SDeployed)] /\
+    data_view w' = [("ConfigMap/a", Some "v3")].
+Proof. exact atomic_upgrade_history_limit_example. Qed.
+Print Assumptions C03_atomic_upgrade_history_limit_example.
+
+(* a failing post-upgrade hook: restored (the target revision has no rollback hooks) *)
+Example C03_atomic_upgrade_hook_fault_example :
+  cf_k hf_cf = None /\ cf_wait hf_cf = false /\ f_no_hooks fl_atomic = false /\
+  max_rev_of (filter good_filter (w_led ad_w1)) = Some ad_g /\
+  hooks_for PreRollback (hooks ad_g) = [] /\ hooks_for PostRollback (hooks ad_g) = [] /\
+  (forall r, In r (manifest ad_g) -> in_keys (rkey r) [cmr "a" "v2"; cmr "b" "v2"] = true) /\
+  exists w' t,
+    run_store_op "rel" "default" (mkOp (OpUpgrade fl_atomic 2 2 [cmr "a" "v2"; cmr "b" "v2"] [hf_hq]) ContainLedger.nofault hf_cf) ad_w1
+      = (w', OErr EOtherErr, t) /\
+    statuses (w_led w') = [(1, SSuperseded); (2, SFailed); (3, SDeployed)] /\
+    data_view w' = [("ConfigMap/a", Some "v1"); ("ConfigMap/b", Some "v1")].
+Proof. exact atomic_upgrade_hook_fault_example. Qed.
+Print Assumptions C03_atomic_upgrade_hook_fault_example.
